@@ -221,6 +221,9 @@ func (w *recWriter) Write(p []byte) (int, error) {
 		if idx == w.failAt && w.short > 0 && w.short < len(p) {
 			n = w.short
 		}
+		if w.short < 0 {
+			n = len(p) // a write-through writer: everything was taken, and the error is reported with the full count
+		}
 		w.buf = append(w.buf, p[:n]...)
 		if w.errv != nil {
 			return n, w.errv
